@@ -416,6 +416,7 @@ const INT_FIELDS: &[&str] = &["dim", "id", "num_edges", "dimension", "num_loops"
 const F64_FIELDS: &[&str] = &["dod", "cached_factor", "generalized_dod", "j_function", "weight"];
 const INT_METHODS: &[&str] = &["len", "get_dim", "get_id", "count_ones", "pow", "get_num_variables", "get_dimension"];
 const F64_METHODS: &[&str] = &["to_f64", "verif_as_f64", "compute_weight_sum"];
+const F64_SELF_METHODS: &[&str] = &["abs", "fract", "floor", "ceil", "round", "trunc", "sqrt", "ln", "exp", "sin", "cos", "tan", "powf", "powi", "recip", "signum", "max", "min", "mul_add", "clone", "clamp", "log10", "log2", "exp_m1", "ln_1p", "to_degrees", "to_radians", "copysign"];
 const INT_TYPES: &[&str] = &["usize", "isize", "u8", "u16", "u32", "u64", "i8", "i16", "i32", "i64", "u128", "i128"];
 
 fn kind_of_type_str(t: &str) -> (K, K) {
@@ -611,6 +612,8 @@ impl<'s> Walker<'s> {
                 if INT_METHODS.contains(&s.as_str()) {
                     K::Int
                 } else if F64_METHODS.contains(&s.as_str()) {
+                    K::F64
+                } else if F64_SELF_METHODS.contains(&s.as_str()) && self.kind(&m.receiver) == K::F64 {
                     K::F64
                 } else {
                     K::Other
@@ -1008,6 +1011,13 @@ impl<'s> Walker<'s> {
                     let (_, en) = self.src.range(e.span());
                     self.open(s, "(", "R7");
                     self.rule(xe, en, ").verif_as_f64()".to_string(), 2, 0, "R7");
+                } else if INT_TYPES.contains(&t.as_str()) && self.kind(&c.expr) == K::F64 {
+                    // R7: `x as i32` with x: f64 -> `f64_as_i32(x)` (an uninterpreted function of x)
+                    let (s, _) = self.src.range(c.expr.span());
+                    let (_, xe) = self.src.range(c.expr.span());
+                    let (_, en) = self.src.range(e.span());
+                    self.open(s, &format!("f64_as_{}(", t), "R7");
+                    self.rule(xe, en, ")".to_string(), 2, 0, "R7");
                 }
                 self.walk_expr(&c.expr)
             }
@@ -1898,6 +1908,9 @@ fn extract_fn(src: &Src, file: &syn::File, selector: &str, ov: &FnOverlay, map: 
             syn::FnArg::Receiver(r) => {
                 head.push_str(src.slice(r.span()));
                 first = false;
+                if sel.imp.map(|im| norm(src.slice(im.self_ty.span())) == "f64").unwrap_or(false) {
+                    w.bind("self", (K::F64, K::F64));
+                }
             }
             syn::FnArg::Typed(pt) => {
                 if let Some(true) = has_cfg_log(&pt.attrs) {
@@ -1918,7 +1931,9 @@ fn extract_fn(src: &Src, file: &syn::File, selector: &str, ov: &FnOverlay, map: 
                 }
                 let pat_txt = src.slice(pt.pat.span()).to_string();
                 head.push_str(&format!("{}: {}", pat_txt, tytxt));
-                w.bind_pat(&pt.pat, kind_of_type_str(&tytxt));
+                let self_is_f64 = sel.imp.map(|im| norm(src.slice(im.self_ty.span())) == "f64").unwrap_or(false);
+                let kt = if self_is_f64 { tytxt.replace("Self", "f64") } else { tytxt.clone() };
+                w.bind_pat(&pt.pat, kind_of_type_str(&kt));
             }
         }
     }
